@@ -11,7 +11,8 @@ WS = "harness_serde"
 SUBCHECK = {1: "K-serde(encode, struct order)", 2: "K-serde(decode of serde_json text)",
             3: "K-serde(encode, to_value + $schema file form)", 4: "K-serde(decode of file form)",
             5: "K-serde(mutated documents: accept/reject and decoded value)",
-            6: "K-fill(revision)", 7: "K-valid(validate_migration_plan of the written plan)"}
+            6: "K-fill(revision)", 7: "K-valid(validate_migration_plan of the written plan)",
+            8: "K-valid(validate_migration_plan of every round-trip plan)"}
 CLASS_BITS = {"known_C12_nullable_default": 0, "known_C12_empty_int_enum": 1, "known_C12_nonfinite_default": 2, "in_image": 3}
 
 
@@ -201,5 +202,6 @@ def input_of(r):
     k = r.get("kind", "")
     if k == "rev":
         return {"kind": k, "models_now": r.get("models"), "history": r.get("history"), "plan": r.get("plan"), "written": r.get("written"),
+                "supplied_fill_with": r.get("supplied_fill_with"),
                 "how_to_replay": "write models_now to models/*.json and history to migrations/, run `vespertide revision -m x` then `vespertide diff`; or ./vf replay C12 <this file>"}
     return {"kind": k, "text": r.get("text"), "file": r.get("file"), "yaml": r.get("yaml"), "labels": r.get("labels"), "tag": r.get("tag")}
